@@ -15,7 +15,7 @@ from .values import EngineSignal, Unsupported, SBool, SInt
 from .explore import explore, PathLimit
 from .interp import Interp
 from .state import StateGuard
-from .unit import REGISTRY, Args, SymExec, Outcome, Undecided, run_native, model_inputs
+from .unit import REGISTRY, Args, SymExec, Outcome, Undecided, run_native, model_inputs, outcome_of_exception, ContractError
 
 CVC5 = "/usr/bin/cvc5"
 
@@ -152,7 +152,7 @@ def verify_case(unit_name, case, prop=None, tier="quick", opts=None):
             except RecursionError:
                 raise
             except BaseException as ex:
-                out = Outcome("raise", exc=ex)
+                out = outcome_of_exception(ex)
             clauses = []
             for p, n, c in unit.ensures(case, a, out, X):
                 if prop is None or p == prop or p == "*":
@@ -170,6 +170,12 @@ def verify_case(unit_name, case, prop=None, tier="quick", opts=None):
     try:
         paths = explore(fn, max_paths=unit.max_paths, timeout_ms=timeout_ms, loop_bound=unit.loop_bound,
                         deadline=t_start + opts.get("explore_budget_s", 600 if tier == "quick" else 3000))
+    except ContractError as ex:
+        guard.restore()
+        res["status"] = "error"
+        res["notes"].append(str(ex))
+        res["wall"] = time.time() - t_start
+        return res
     except EngineSignal as ex:
         guard.restore()
         res["status"] = "undecided"
